@@ -241,6 +241,7 @@ where
         match cmd["c"].as_str().unwrap() {
             "up" => v.update(k, ctx, |inner, ctx| V::gen_nested(inner, ctx, &cmd["sub"])),
             "rm" => v.rm(k, v.get(&k).derive_rm_ctx()),
+            "rmv" => v.rm(k, v.read_ctx().derive_rm_ctx()),
             c => panic!("unknown map command {}", c),
         }
     }
@@ -304,7 +305,9 @@ where
         use rand::Rng;
         let present: Vec<u64> = v.keys().map(|c| *c.val as u64).collect();
         if !present.is_empty() && rng.gen_bool(0.3) {
-            json!({"c": "rm", "k": present[rng.gen_range(0..present.len())]})
+            // half of the removes use the context of a whole-map read (several removes then share a clock)
+            let c = if rng.gen_bool(0.5) { "rm" } else { "rmv" };
+            json!({"c": c, "k": present[rng.gen_range(0..present.len())]})
         } else {
             let k = rng.gen_range(1..=d.k.max(1)) as u8;
             let inner = v.get(&k).val.unwrap_or_default();
@@ -352,6 +355,8 @@ where
                 s.update(k, ctx, |inner, ctx| V::gen_nested(inner, ctx, &cmd["sub"]))
             }
             "rm" => s.rm(k, s.get(&k).derive_rm_ctx()),
+            // the same remove with the context of a whole-map read (len / is_empty / read_ctx all carry it)
+            "rmv" => s.rm(k, if k % 2 == 0 { s.len().derive_rm_ctx() } else { s.read_ctx().derive_rm_ctx() }),
             c => panic!("unknown map command {}", c),
         }
     }
